@@ -872,3 +872,55 @@ Proof.
       end; auto; try congruence; try lia.
 Qed.
 
+
+(* ---- the byte-level statements ---- *)
+Lemma ws_reassembly_bytes cfg frs ms keys :
+  c_isstream cfg = false -> msg_seq cfg frs ms -> frames_encodable keys frs -> admitted_along cfg ws_init frs ->
+  forall p rest, concat (p :: rest) = ws_encode_frames (negb (c_server cfg)) keys frs ->
+  let '(d, e) := ws_feed_all cfg ws_dinit (p :: rest) in deliveries e = ms /\ d = ws_dinit.
+Proof.
+  intros Hm Hs He Ha p rest Hc.
+  unfold ws_feed_all. rewrite (feed_all_concat ws_state ws_event ws_want (ws_cb cfg)), Hc.
+  change (feed ws_state ws_event ws_want (ws_cb cfg)) with (ws_feed cfg).
+  unfold ws_dinit. rewrite (ws_feed_frames cfg frs keys ws_init eq_refl He Ha).
+  pose proof (ws_sequence_reassembles cfg Hm frs ms Hs) as R. unfold ws_init in *.
+  destruct (ws_frames_run cfg (mkWs SHead false []) frs) as [s1 e1]. destruct R as [A B]. subst s1. auto.
+Qed.
+
+Lemma ws_fragment_encodable send_text fragsize : forall fuel count data,
+  Forall (fun f => fr_op f < 128 /\ N.of_nat (length (fr_payload f)) <= N.of_nat (length data))
+         (ws_fragment fuel false send_text fragsize count data).
+Proof.
+  assert (O: forall count, (if count =? 0 then if send_text then WS_TEXT else WS_BINARY else WS_CONT) < 128).
+  { intros count. destruct (count =? 0); [destruct send_text|]; reflexivity. }
+  induction fuel as [|f IH]; intros count data; cbn [ws_fragment]; [constructor|].
+  destruct ((fragsize <? N.of_nat (length data)) && (0 <? fragsize)).
+  - constructor.
+    + cbn [fr_op fr_payload fst snd]. split; [apply O|]. rewrite firstn_length. lia.
+    + eapply Forall_impl; [|apply IH]. cbv beta. intros fr [A B]. split; [exact A|].
+      rewrite skipn_length in B. lia.
+  - constructor; [|constructor]. cbn [fr_op fr_payload fst snd]. split; [apply O|lia].
+Qed.
+
+Lemma ws_fragmentation_bytes cfg send_text fragsize data keys :
+  c_isstream cfg = false -> (send_text = true -> c_recv_text cfg = true) ->
+  N.of_nat (length data) < 2 ^ 64 ->
+  let frs := ws_send_frames false send_text fragsize data in
+  (length frs <= length keys)%nat -> Forall (fun k => length k = 4%nat) keys ->
+  admitted_along cfg ws_init frs ->
+  forall p rest, concat (p :: rest) = ws_encode_frames (negb (c_server cfg)) keys frs ->
+  let '(d, e) := ws_feed_all cfg ws_dinit (p :: rest) in deliveries e = [data] /\ d = ws_dinit.
+Proof.
+  intros Hm Ht Hl frs Hk Hk4 Ha p rest Hc.
+  assert (He: frames_encodable keys frs).
+  { split; [|split; assumption]. unfold frs, ws_send_frames.
+    eapply Forall_impl; [|apply ws_fragment_encodable]. cbv beta. intros f [A B]. split; [exact A|lia]. }
+  unfold ws_feed_all. rewrite (feed_all_concat ws_state ws_event ws_want (ws_cb cfg)), Hc.
+  change (feed ws_state ws_event ws_want (ws_cb cfg)) with (ws_feed cfg).
+  unfold ws_dinit. rewrite (ws_feed_frames cfg frs keys ws_init eq_refl He Ha).
+  pose proof (ws_fragment_run cfg send_text fragsize Hm Ht (S (length data)) 0 data [] (Nat.lt_succ_diag_r _) (fun _ => eq_refl)) as R.
+  change (negb (0 =? 0)) with false in R. unfold frs, ws_send_frames, ws_init.
+  destruct (ws_frames_run cfg (mkWs SHead false []) (ws_fragment (S (length data)) false send_text fragsize 0 data)) as [s1 e1].
+  destruct R as (A & B & C & D). cbn [concat app] in A. split; [exact A|].
+  destruct s1; cbn in *; subst; reflexivity.
+Qed.
